@@ -125,6 +125,29 @@ let run (cmd : string) (a : v list) : string =
       pres (fun (tr, cap) ->
           "[" ^ plist (fun ((m, e), n) -> "[" ^ pz m ^ "," ^ pz e ^ "," ^ pnat n ^ "]") tr ^ ",[" ^ pz (fst cap) ^ "," ^ pz (snd cap) ^ "]]")
         (Multifit.multifit_trace (nat_ it) (nat_ k) (zlist vs))
+  (* ---- ILP: formulation handed to the solver, decoding of its answer ---- *)
+  | "ilp_formulate", [vs; k; copies; ws; o; ok; extras] ->
+      let ex = Stdlib.List.map (fun e -> match list_ e with
+          | [I 0; c] -> ILP.SmallestEq (z_ c) | [I 1; c] -> ILP.LargestLe (z_ c) | [I 2; c] -> ILP.SmallestGe (z_ c)
+          | _ -> raise (Parse "extra")) (list_ extras) in
+      let ((nv, obj), cons) = ILP.normalize (ILP.formulate (zlist vs) (nat_ k) (zlist copies) (zlist ws) (objective (int_ o) (int_ ok)) ex) in
+      let prat (n, d) = "[" ^ pz n ^ "," ^ pz d ^ "]" in
+      let pexpr (ts, c) = "[" ^ plist (fun (v, r) -> "[" ^ pnat v ^ "," ^ prat r ^ "]") ts ^ "," ^ prat c ^ "]" in
+      let psense = function ILP.SLe -> "\"<\"" | ILP.SGe -> "\">\"" | ILP.SEq -> "\"=\"" in
+      "[" ^ pnat nv ^ "," ^ pexpr obj ^ "," ^ plist (fun (e, sn) -> "[" ^ pexpr e ^ "," ^ psense sn ^ "]") cons ^ "]"
+  | "ilp_decode", [keep; k; ns; vs; ws; asg] ->
+      pbins (ILP.decode vof (bool_ keep) (nat_ k) (items ns vs) (zlist ws) (zlist asg))
+  | "ilp_run", [keep; o; ok; k; ns; vs; copies; ws; answer] ->
+      let ans = match answer with L [] -> None | L [a] -> Some (zlist a) | _ -> raise (Parse "answer") in
+      pres pbins (ILP.ilp vof (bool_ keep) ans (objective (int_ o) (int_ ok)) (nat_ k) (items ns vs) (zlist copies) (zlist ws))
+  | "ilp_feasible", [vs; k; copies; ws; extras; asg] ->
+      let ex = Stdlib.List.map (fun e -> match list_ e with
+          | [I 0; c] -> ILP.SmallestEq (z_ c) | [I 1; c] -> ILP.LargestLe (z_ c) | [I 2; c] -> ILP.SmallestGe (z_ c)
+          | _ -> raise (Parse "extra")) (list_ extras) in
+      pbool (ILP.feasible_b (zlist vs) (nat_ k) (zlist copies) (zlist ws) ex (zlist asg))
+  | "ilp_objective", [vs; k; ws; o; ok; asg] ->
+      let (n, d) = ILP.objective_value (zlist vs) (nat_ k) (zlist ws) (objective (int_ o) (int_ ok)) (zlist asg) in
+      "[" ^ pz n ^ "," ^ pz d ^ "]"
   | "kk", [keep; k; ns; vs] -> pres pbins (KK.kk vof (bool_ keep) (nat_ k) (items ns vs))
   | "ckk", [keep; k; ns; vs] -> pres pbins (KK.ckk vof nof (bool_ keep) (nat_ k) (items ns vs))
   | "ckk_nodes", [keep; k; ns; vs] ->
